@@ -16,12 +16,24 @@ func main() {
 		os.Exit(runReplay(*prop, *replay))
 	}
 	r := NewRunner(*prop)
-	r.outcomeOf = func(c *Case) string { return fmt.Sprint(c.Impl["ok"]) }
+	r.outcomeOf = outcomeOf
 	switch *prop {
 	case "C03":
 		genChain(r, "cs")
 	case "C14":
 		genChain(r, "ts")
+	case "C04":
+		genC04(r)
+	case "C05":
+		genC05(r)
+	case "C06":
+		genC06(r)
+	case "C10":
+		genC10(r)
+	case "C11":
+		genC11(r)
+	case "C12":
+		genC12(r)
 	default:
 		fmt.Fprintln(os.Stderr, "unknown property", *prop)
 		os.Exit(2)
@@ -35,4 +47,26 @@ func main() {
 func runReplay(prop, path string) int {
 	fmt.Fprintln(os.Stderr, "replay not implemented yet for", prop, path)
 	return 2
+}
+
+// outcomeOf: a short label of what the implementation did, for the distribution in the evidence
+func outcomeOf(c *Case) string {
+	if v, ok := c.Impl["ok"]; ok {
+		return fmt.Sprint("ok=", v)
+	}
+	if v, ok := c.Impl["panic"]; ok {
+		return fmt.Sprint("panic:", v)
+	}
+	if v, ok := c.Impl["error"]; ok {
+		return fmt.Sprint("error:", v)
+	}
+	if rs, ok := c.Impl["results"].([]any); ok && len(rs) > 0 {
+		if m, ok := rs[0].(map[string]any); ok {
+			return fmt.Sprint(m["result"], "/", m["method"])
+		}
+	}
+	if v, ok := c.Impl["class"]; ok {
+		return fmt.Sprint(v)
+	}
+	return "other"
 }
